@@ -58,10 +58,65 @@ def bytes_decode(b: SBytes, encoding="utf-8", errors="strict"):
 
 
 def int_parse(x, base=10):
+    """int(rope, base): the value is an uninterpreted non-negative function of the bytes; ValueError is possible
+    unless the bytes passed a digits gate on this path (content of ropes is not modelled)"""
+    if isinstance(x, SBytes):
+        used("int(bytes, base) of a symbolic rope: uninterpreted non-negative value determined by the bytes")
+        c = ctx()
+        cache = getattr(c, "_rope_ints", None)
+        if cache is None:
+            cache = c._rope_ints = {}
+        key = (base, x._sig())
+        if key not in cache:
+            from .values import fresh_int
+
+            cache[key] = fresh_int("intval", 0, register=False)
+        gated = x.pred("digits_gate", base)
+        if not c.branch(tint_bool(gated), "int.parsable"):
+            raise ValueError(f"invalid literal for int() with base {base}")
+        return cache[key]
     raise Unsupported(f"int() of {type(x).__name__}")
 
 
+def tint_bool(b):
+    from .values import tbool
+
+    return tbool(b)
+
+
+def rope_regex(pat, mode, x: SBytes):
+    """pattern.fullmatch/match/search on a rope: uninterpreted but functional answer (same bytes -> same answer);
+    a positive fullmatch against a digits-only pattern makes int() of the same bytes total"""
+    from .text import _lang_subset
+
+    used("regex on symbolic ropes: uninterpreted functional predicate per (pattern, bytes)")
+    b = x.pred("re", pat.pattern, pat.flags, mode)
+    c = ctx()
+    if c.branch(tint_bool(b), f"re.{mode}"):
+        if mode == "fullmatch":
+            for base, which in ((10, "digits"), (16, "hex")):
+                if _lang_subset(pat, which):
+                    c.add(tint_bool(x.pred("digits_gate", base)))
+            if not hasattr(x, "matched"):
+                x.matched = []
+            x.matched.append(pat)
+            # functional tagging for copies with the same provenance
+            tags = getattr(c, "_rope_matched", None)
+            if tags is None:
+                tags = c._rope_matched = {}
+            tags.setdefault(x._sig(), []).append(pat)
+
+        class _M:
+            def __bool__(self):
+                return True
+
+        return _M()
+    return None
+
+
 def bytes_contains(container, x):
+    if isinstance(container, SBytes):
+        return container.sym_contains(x)
     raise Unsupported("'in' on symbolic bytes (content search) - use text model")
 
 
